@@ -134,23 +134,38 @@ def dead_stores(fn):
     return found
 
 
-# dead stores of the pinned tree, one reason each
+# dead stores of the pinned tree: (class, function) -> the right-hand sides
+# (local names abstracted to `?`), one reason each
 DEAD_STORE_OK = {
-    ('LinearCovariateModel', 'compute_sensitivities', 'n_pop'):
-        'left-over bookkeeping after the flattening; no later use',
-    ('LinearCovariateModel', 'compute_sensitivities', 'parameters'):
-        'left-over transposition; the coefficients are not read again',
-    ('GaussianModel', '_compute_sensitivities', 'n_ids'):
-        'left-over count',
-    ('LogNormalModel', '_compute_sensitivities', 'n_ids'):
-        'left-over count',
-    ('GaussianModel', 'compute_individual_parameters', 'n_parameters'):
-        'the rank-dispatch slip recorded as D-08a (reported by R05.1)',
-    ('LogNormalModel', 'compute_individual_parameters', 'n_parameters'):
-        'the rank-dispatch slip recorded as D-08b (reported by R05.1)',
-    ('LogNormalModel', 'compute_sensitivities', 'n_parameters'):
-        'the rank-dispatch slip recorded as D-08c (reported by R05.1)',
+    ('LinearCovariateModel', 'compute_sensitivities'): {
+        '? * ?': 'left-over bookkeeping after the flattening',
+        '?.T': 'left-over transposition; the coefficients are not read '
+               'again'},
+    ('GaussianModel', '_compute_sensitivities'): {
+        'len(?)': 'left-over count'},
+    ('LogNormalModel', '_compute_sensitivities'): {
+        'len(?)': 'left-over count'},
+    ('GaussianModel', 'compute_individual_parameters'): {
+        '?[np.newaxis, ...]': 'the rank-dispatch slip recorded as D-08a '
+                              '(reported by R05.1)'},
+    ('LogNormalModel', 'compute_individual_parameters'): {
+        '?[np.newaxis, ...]': 'the rank-dispatch slip recorded as D-08b '
+                              '(reported by R05.1)'},
+    ('LogNormalModel', 'compute_sensitivities'): {
+        '?[np.newaxis, ...]': 'the rank-dispatch slip recorded as D-08c '
+                              '(reported by R05.1)'},
 }
+
+
+def _abstract_rhs(v):
+    import copy
+
+    class R(ast.NodeTransformer):
+        def visit_Name(self, n):
+            if n.id in ('np', 'self', 'len', 'int', 'float'):
+                return n
+            return ast.copy_location(ast.Name(id='?', ctx=n.ctx), n)
+    return U(R().visit(copy.deepcopy(v)))
 
 
 def _targets(t):
@@ -592,7 +607,8 @@ def r00(ctx, repo, files=None):
         # sensitive: the name is re-bound or the function ends first) — the
         # update that was meant to happen is lost
         for st, nm in dead_stores(fn):
-            if (cls, fn.name, nm) in DEAD_STORE_OK:
+            if _abstract_rhs(st.value) in DEAD_STORE_OK.get(
+                    (cls, fn.name), {}):
                 continue
             bad += 1
             ctx.violation(
